@@ -139,6 +139,9 @@ func (m *machine) walk(r, t int) (refID, layerID uint64, st fuse.Status) {
 // ---- node tree dump ----
 func (m *machine) tree() (rn []int, ln [][2]int, fn [][4]int) {
 	for rname, rch := range m.rootN.EmbeddedInode().Children() {
+		if rname == "pool" { // the symlink to the manifest pool, not a ref directory
+			continue
+		}
 		b, err := base64.StdEncoding.DecodeString(rname)
 		if err != nil {
 			m.fail("", "root has a child with a name that is not base64: %q", rname)
